@@ -196,10 +196,10 @@ def extract_program(lay, shape):
                 a[1], e0, e1))
             continue
         progs.append((tuple(ops), tuple(labels)))
-    abort = False
+    abort = "none"
     if lay["args"]:
         ef, rf = _run_stripe_alone(lay["args"][0], shape, 1, fault_label="start")
-        abort = "abort" in ef
+        abort = "abort" if "abort" in ef else ("reset" if "reset" in ef else "none")
         if rf is None:
             problems.append("an injected fault in the worker did not propagate out of the worker wrapper")
     if len(set(progs)) > 1:
@@ -213,6 +213,27 @@ def extract_program(lay, shape):
 # --------------------------------------------------------------------------------------------------------------
 class ConformanceError(Exception):
     pass
+
+
+def _in_exception_wrapper(t):
+    """is the parked task inside the worker wrapper's exception handler (reset()/abort() called from _sf2)?"""
+    import sys
+    fr = sys._current_frames().get(t.thread.ident) if t.thread is not None else None
+    while fr is not None:
+        if fr.f_code.co_name == "_sf2":
+            return fr.f_lineno is not None and "sigma_filter" not in [f.f_code.co_name for f in _frames_above(t, fr)]
+        fr = fr.f_back
+    return False
+
+
+def _frames_above(t, stop):
+    import sys
+    fr = sys._current_frames().get(t.thread.ident)
+    out = []
+    while fr is not None and fr is not stop:
+        out.append(fr)
+        fr = fr.f_back
+    return out
 
 
 def _model_norm_pc(prog, pc):
@@ -272,7 +293,7 @@ class PathChooser(object):
                 if t.state == "ready":
                     spawned_ready += 1
             elif t.state == "ready":
-                st.append("aborting" if t.label.endswith("acquire:abort") else "run")
+                st.append("aborting" if (t.label.endswith("acquire:abort") or (t.label.endswith("acquire:reset") and _in_exception_wrapper(t))) else "run")
             elif t.state == "blocked":
                 st.append("benter" if t.label.endswith("enter_wait") else "bwait")
             elif t.state == "done":
@@ -601,7 +622,7 @@ def main(tier, seed, t0):
         tlc_jobs = []
         pairs = [(s, c) for s in range(1, smax + 1) for c in range(1, smax + 1)]
         if not quick:
-            pairs += [(5, 5), (6, 6)]
+            pairs += [(5, 5)]      # (6,6) without faults has 5.9e7 states and takes TLC 28 min: left out of the registered tier
         for mask in (True, False):
             ex = progs[mask]
             for (s_, c_) in pairs:
